@@ -66,6 +66,12 @@ impl Report {
         self.outs.push(out.to_string());
     }
 
+    pub fn rewrite_last_out(&mut self, out: &str) {
+        if let Some(l) = self.outs.last_mut() {
+            *l = out.to_string();
+        }
+    }
+
     pub fn case_ops(&self) -> Vec<String> {
         self.ops[self.case_start..].to_vec()
     }
